@@ -343,3 +343,13 @@ class Rng(random.Random):
 def canon(x):
     """hashable canonical form for distinct counting"""
     return json.dumps(x, sort_keys=True, default=str)
+
+
+def push(viol, v, per_sig=3):
+    """append a violation unless there are already `per_sig` with the same signature (keeps floods of one kind,
+    e.g. a known finding, from hiding other kinds)"""
+    if v is None:
+        return
+    k = canon(v.get('signature'))
+    if sum(1 for w in viol if canon(w.get('signature')) == k) < per_sig:
+        viol.append(v)
